@@ -5,7 +5,7 @@
    InplaceXlate = xlate, find = find_all/find_first); printer, reach and the tree classes: C32/Spec_C32.v. *)
 From Coq Require Import String.
 From Coq Require Import NArith List Bool.
-From F8 Require Import C32.XmlBase C32.Xml C32.Spec_C32 C32.XmlProofs C32.XmlTreeProofs.
+From F8 Require Import C32.XmlBase C32.Xml C32.Spec_C32 C32.XmlProofs C32.XmlTreeProofs C32.XmlTotal.
 Import ListNotations.
 Local Open Scope N_scope.
 
@@ -88,3 +88,19 @@ Theorem c32_nonvacuous :
   find_first (find_fuel (bs "cfg/item")) sample_tree sample_tree [] (bs "cfg/item") (Some (bs "id", bs "2")) = Some [2%nat].
 Proof. exact c32_nonvacuous_lemma. Qed.
 Print Assumptions c32_nonvacuous.
+
+(* Arbitrary input bytes: the model is total -- for EVERY byte string the fuel of parse_doc
+   (2 * length + 4 loop iterations over all nesting levels) is never exhausted, so the modelled parser
+   always answers with a tree or a parse error.  (That the real parser does the same without memory
+   errors is what the correspondence run checks under ASan/UBSan.) *)
+Theorem c32_total : forall bytes : str, parse_doc bytes <> OutOfFuel.
+Proof. exact c32_total_lemma. Qed.
+Print Assumptions c32_total.
+
+(* ... and the two replacement loops of InplaceXlate always reach their fixed point: any fuel above
+   length + 1 gives the same result as the fuel used by the model. *)
+Theorem c32_xlate_fuel : forall (s : str) (fuel1 fuel2 : nat),
+  (length s < fuel1)%nat -> (length (xlate_named fuel1 s) < fuel2)%nat ->
+  xlate_num fuel2 (xlate_named fuel1 s) = xlate s.
+Proof. exact c32_xlate_fuel_lemma. Qed.
+Print Assumptions c32_xlate_fuel.
